@@ -130,10 +130,21 @@ Section Effective.
     end.
 End Effective.
 
-(* a configuration the connect functions do not refuse outright *)
-Definition config_ok (conflict_bits : Z -> bool) (cfg : config) : Prop :=
-  cf_jid cfg <> None /\
-  (cf_type cfg = Component -> cf_host cfg <> None /\ cf_pass cfg = true /\ conflict_bits (cf_flags cfg) = false).
+(* a configuration the connect functions do not refuse outright: a JID is set; a component also
+   names the server and has a password, and its flags do not demand TLS (XEP-0114 has none) *)
+Definition config_ok (conflict_bits : Z -> bool) (cfg : config) : bool :=
+  match cf_jid cfg with
+  | None => false
+  | Some _ =>
+      match cf_type cfg with
+      | Component =>
+          match cf_host cfg with
+          | Some _ => cf_pass cfg && negb (conflict_bits (cf_flags cfg))
+          | None => false
+          end
+      | _ => true
+      end
+  end.
 
 (* ---------------------------------------------------------------- observers of a trace *)
 
@@ -165,7 +176,31 @@ Definition is_timed_out (j : nat) (e : ev) : bool :=
 Definition timed_out (j : nat) (tr : list ev) : bool := existsb (is_timed_out j) tr.
 
 Definition is_query (e : ev) : bool := match e with EvQ _ => true | _ => false end.
-Definition queried (tr : list ev) : bool := existsb is_query tr.
+(* the SRV queries made, in order *)
+Definition queries (tr : list ev) : list ev := filter is_query tr.
+
+(* connection-established events (stream header, legacy-SSL handshake, raw-connect notification) *)
+Definition no_est (e : ev) : Prop :=
+  match e with EvHdr _ _ _ _ | EvTls _ | EvRawConnect => False | _ => True end.
+
+(* the `to` of the stream header: the JID's domain, for a component the JID itself *)
+Definition spec_stream_to (cfg : config) : list Z :=
+  match cf_type cfg with
+  | Component => match cf_jid cfg with Some j => j | None => [] end
+  | _ => cf_domain cfg
+  end.
+
+(* such events concern descriptor fd only; the header is addressed as documented, in the component
+   namespace exactly for components, inside TLS exactly for legacy SSL on a non-raw connection *)
+Definition est_ok (legacy_bit : Z) (cfg : config) (fd : nat) (e : ev) : Prop :=
+  match e with
+  | EvHdr fd' tls to comp =>
+      fd' = fd /\ to = spec_stream_to cfg /\
+      comp = (match cf_type cfg with Component => true | _ => false end) /\
+      tls = (legacy_ssl legacy_bit cfg && match cf_type cfg with Raw => false | _ => true end)
+  | EvTls fd' => fd' = fd
+  | _ => True
+  end.
 
 (* the loop is polled at least every [timeout] ms: between connect and the first run, and between
    two runs, the clock advances by at most [timeout] *)
